@@ -202,9 +202,11 @@ def optional_aware_helpers(module):
         if f.parent is not None or f.cls is not None or len(f.params) != 1:
             continue
         body = [b for b in f.node.body if not (isinstance(b, ast.Expr) and isinstance(b.value, ast.Constant))]
-        if len(body) != 1 or not isinstance(body[0], ast.Return) or not isinstance(body[0].value, ast.IfExp):
+        from ..inline import return_tree_expr
+        e = return_tree_expr(body)          # `if c: return a` + `return b` (normal form N37) read back as `a if c else b`
+        if not isinstance(e, ast.IfExp):
             continue
-        p, e = f.params[0], body[0].value
+        p = f.params[0]
         for attr in ('_ALIGNMENT', '_SIZE'):
             pos = (unparse(e.test) == '%s._OPTIONAL' % p and unparse(e.body) == '%s._OPTIONAL%s' % (p, attr)
                    and unparse(e.orelse) == '%s.%s' % (p, attr))
@@ -216,7 +218,7 @@ def optional_aware_helpers(module):
 
 
 def role(src, cur_exprs):
-    src = re.sub(r'\s+', ' ', src)
+    src = re.sub(r'\s+', ' ', re.sub(r'\b__v\d+_', '', src))
     if src in cur_exprs:
         return 'CUR'
     m = re.match(r'^(\w+)\(field\.type\)$', src)
@@ -233,15 +235,24 @@ def role(src, cur_exprs):
 
 def walker_skeleton(f, acc, cur_exprs, pad_fn, field_fn):
     """Events of a struct walker: updates of the accumulator `acc` only."""
+    def is_acc(name):
+        # the accumulator or a later version of it (N14: `__v1_pos = pos + ...`)
+        return re.sub(r'^__v\d+_', '', name) == acc
+
     def stmts(body):
         out = []
         for s in body:
+            if isinstance(s, ast.Return) and isinstance(s.value, ast.BinOp) and isinstance(s.value.op, ast.Add) \
+                    and isinstance(s.value.left, ast.Name) and is_acc(s.value.left.id):
+                # `acc += X; return acc` in normal form
+                out.append(classify(s.value.right, s))
+                continue
             if isinstance(s, (ast.AugAssign, ast.Assign)):
                 tgt = s.target if isinstance(s, ast.AugAssign) else s.targets[0]
-                if isinstance(tgt, ast.Name) and tgt.id == acc:
+                if isinstance(tgt, ast.Name) and is_acc(tgt.id):
                     val = s.value
                     if isinstance(s, ast.Assign):
-                        if isinstance(val, ast.BinOp) and isinstance(val.op, ast.Add) and unparse(val.left) == acc:
+                        if isinstance(val, ast.BinOp) and isinstance(val.op, ast.Add) and isinstance(val.left, ast.Name) and is_acc(val.left.id):
                             val = val.right
                         else:
                             ok, v = try_const(val)
@@ -331,30 +342,33 @@ def f1_struct_walkers(ctx, L, sides=('encode', 'decode')):
                 'F1.sibling-mirror', 'struct.encode~struct._decode_impl', dec.site(),
                 'decode does not mirror encode step by step. encode: %s | decode: %s' % (es, ds), ds)
     if 'encode' in sides:
-        rets = [unparse(r.value) for r in ast.walk(enc.node) if isinstance(r, ast.Return)]
-        L.check(rets == ['data'], 'F1.struct-steps', 'struct.encode|return', enc.site(), 'encode must return the accumulated bytes',
-                str(rets))
+        rets = [r.value for r in ast.walk(enc.node) if isinstance(r, ast.Return)]
+        # `return data` or, in normal form, `return data + <last step>` (the step itself is part of the skeleton above)
+        L.check(len(rets) == 1 and re.sub(r'\b__v\d+_', '', unparse(rets[0].left if isinstance(rets[0], ast.BinOp) and isinstance(rets[0].op, ast.Add)
+                                                                    else rets[0])) == 'data',
+                'F1.struct-steps', 'struct.encode|return', enc.site(), 'encode must return the accumulated bytes',
+                str([unparse(r) for r in rets]))
     return es, ds
 
 
 def f1_union_encode(ctx, L):
     comp = ctx.py.mod('prophy.composite')
     f = comp.func('union.encode')
-    src = [unparse(s) for s in f.node.body]
-    want = ['d = self._discriminated', 'value = getattr(self, d.name)',
-            "discriminator_bytes = self._discriminator_type._encode(d.discriminator, endianness).ljust(self._ALIGNMENT, b'\\x00')",
-            'body_bytes = d.encode_fcn(self, d.type, value, endianness)',
-            "return (discriminator_bytes + body_bytes).ljust(self._SIZE, b'\\x00')"]
-    steps = {'disc': any(inn('self._discriminator_type._encode(d.discriminator, endianness).ljust(self._ALIGNMENT,', s) for s in src),
-             'arm': any(inn('d.encode_fcn(self, d.type, value, endianness)', s) for s in src),
-             'tail': any(s.startswith('return (discriminator_bytes + body_bytes).ljust(self._SIZE,') for s in src)}
+    UE = ['self', 'endianness']
+    rets = [r for r in f.walk() if isinstance(r, ast.Return)]
+    got = sem_text(f, rets[0].value) if len(rets) == 1 and rets[0].value is not None else ''
+    DISC = "self._discriminator_type._encode(self._discriminated.discriminator, endianness).ljust(self._ALIGNMENT, b'\\x00')"
+    ARM = 'self._discriminated.encode_fcn(self, self._discriminated.type, getattr(self, self._discriminated.name), endianness)'
+    steps = {'disc': sem_expected(DISC, UE, comp) in got,
+             'arm': sem_expected(ARM, UE, comp) in got,
+             'tail': got.endswith(sem_expected("x.ljust(self._SIZE, b'\\x00')", UE, comp).split('.ljust', 1)[1])}
     for k, ok in steps.items():
         L.check(ok, 'F1.union-steps', 'union.encode|' + k, f.site(),
                 {'disc': 'the discriminator must be encoded with the discriminator type and padded to the union alignment',
                  'arm': 'the discriminated arm must be encoded with its own codec',
-                 'tail': 'discriminator + arm must be padded to the static union size'}[k], ' ; '.join(src))
-    L.check(src == want, 'F1.union-steps', 'union.encode|order', f.site(),
-            'union encode is not: discriminator padded to S.ALIGN ; arm ; whole padded to S.SIZE', ' ; '.join(src))
+                 'tail': 'discriminator + arm must be padded to the static union size'}[k], got)
+    L.check(body_is(f, "return (%s + %s).ljust(self._SIZE, b'\\x00')" % (DISC, ARM), params=UE), 'F1.union-steps', 'union.encode|order', f.site(),
+            'union encode is not: discriminator padded to S.ALIGN ; arm ; whole padded to S.SIZE', sem_body(f))
 
 
 def f1_optional_encode(ctx, L):
@@ -474,34 +488,26 @@ def f6_count_guard(ctx, L):
     rets = [r for r in ast.walk(f.node) if isinstance(r, ast.Return)]
     if len(rets) != 1:
         raise AnalysisError('container_len._decode: expected one return')
-    upper = lower = False
-    env = {}
-    shifted = False
-    for s in f.node.body:
-        if isinstance(s, ast.Assign) and isinstance(s.targets[0], ast.Name):
-            ok, v = try_const(s.value)
-            if ok:
-                env[s.targets[0].id] = v
-        if isinstance(s, ast.AugAssign) and unparse(s.target) == 'value':
-            shifted = True
-        if isinstance(s, ast.If) and isinstance(s.test, ast.Compare) and terminates(s.body) and not s.orelse \
-                and isinstance(s.body[-1], ast.Raise) and unparse(s.body[-1].exc).startswith('ProphyError('):
-            t = s.test          # normal form (sa/canon.py): only < and <= occur
-            l, op, r = t.left, t.ops[0], t.comparators[0]
-            okl, vl = try_const(l, env)
-            okr, vr = try_const(r, env)
-            if unparse(r) == 'value' and isinstance(op, (ast.Lt, ast.LtE)) and not shifted and okl and isinstance(vl, int) \
-                    and 0 < vl <= (1 << 24):
-                upper = True      # bound < value: tested on the raw decoded value, before the shift
-            if unparse(l) == 'value' and isinstance(op, ast.Lt) and shifted and okr and vr == 0:
-                lower = True      # tested after the shift
+    EXTRA = ['bound_shift', 'sizer_item_type']
+    st = sem_with(f, EXTRA)
+    known = facts_with(f, rets[0], EXTRA)
+    count = rets[0].value.elts[0] if isinstance(rets[0].value, ast.Tuple) and len(rets[0].value.elts) == 2 else None
+    raws = [a for a in f.walk() if isinstance(a, ast.Assign) and isinstance(a.targets[0], ast.Tuple) and len(a.targets[0].elts) == 2
+            and st(a.value) == st('sizer_item_type._decode(data, pos, endianness)')]
+    raw = raws[0].targets[0].elts[0].id if len(raws) == 1 and isinstance(raws[0].targets[0].elts[0], ast.Name) else None
+    # the count returned is (the raw decoded value) - bound_shift: the only local it reads is the raw value
+    shift_ok = count is not None and raw is not None and st(count) == '_L0 - _P%d' % len(f.params) and \
+        set(n.id for n in ast.walk(count) if isinstance(n, ast.Name) and n.id != 'bound_shift') <= {raw} | set(local_defs(f))
+    # (a failed comparison is recorded as the opposite comparison holding)
+    upper = any(pol and re.fullmatch(r'_L0 <= (\d+)', t) and 0 < int(t.split(' ')[-1]) <= (1 << 24) for t, pol in known)
+    lower = ('0 <= _L0 - _P%d' % len(f.params), True) in known
     L.check(upper, 'F6.count-bounded', f.fq + '|upper', f.site(),
             'the decoded element count is not rejected above a constant bound before use: a few bytes can drive '
             'allocation of an arbitrary number of elements', unparse(f.node)[:300])
     L.check(lower, 'F6.count-bounded', f.fq + '|lower', f.site(),
             'the decoded element count (after the shift) is not rejected when negative', '')
-    L.check(unparse(rets[0].value) == '(value, size)' and any(unparse(s) == 'value -= bound_shift' for s in f.node.body),
-            'F6.count-bounded', f.fq + '|shift', f.site(), 'the count must be the decoded value minus the bound shift', '')
+    L.check(shift_ok, 'F6.count-bounded', f.fq + '|shift', f.site(), 'the count must be the decoded value minus the bound shift',
+            unparse(rets[0]))
     # the shift is applied after the upper test and before the lower test (order of the three statements)
     order = [unparse(s)[:40] for s in f.node.body]
     idx = {k: i for i, k in enumerate(order)}
@@ -555,6 +561,9 @@ def f15_optional_aware(ctx, L):
             stmt = node
             while not isinstance(stmt, ast.stmt):
                 stmt = fn.module.parent(stmt)
+            # the statement form of the same selection: the plain attribute is read where `<base>._OPTIONAL` is known to be false
+            guarded = guarded or ((True, True) == (isinstance(node.value, ast.Name), True) and
+                                  any(unparse(t) == '%s._OPTIONAL' % base and not pol for t, pol, how in path_conditions(fn.module, fn, stmt)))
             key = '%s|%s' % (fn.fq, re.sub(r'\s+', ' ', norm_key(fn, stmt)))
             L.check(guarded, 'F15.optional-aware', key, fn.site(node),
                     'reads %s of a member type without selecting _OPTIONAL%s for optional members: the slot of an optional '
@@ -627,13 +636,15 @@ def contains(src, piece, globals_):
     """`piece in src` modulo consistent renaming of local names (and inside string literals nothing is renamed: a quoted
     word is literal because quotes are ordinary characters and identifiers inside keep their spelling only if global -
     so pieces with string literals are matched literally first)."""
-    for cand in piece_forms(piece):
-        if cand in src:
-            return True
-        if "'" in cand or '"' in cand:
-            continue
-        if piece_regex(cand, globals_).search(src) is not None:
-            return True
+    for text in [src] + [a for a in getattr(src, 'alts', ())]:
+        text = str(text)
+        for cand in piece_forms(piece):
+            if cand in text:
+                return True
+            if "'" in cand or '"' in cand:
+                continue
+            if piece_regex(cand, globals_).search(text) is not None:
+                return True
     return False
 
 
@@ -648,9 +659,10 @@ def piece_forms(piece):
         forms = [] if '\n' in piece else [piece]
         n = _cn.normal_text(piece if '\n' not in piece else _dedent(piece))
         if n is not None:
-            n = re.sub(r'\s+', ' ', n).strip()
-            if n not in forms:
-                forms.append(n)
+            for cand in (n, _cn.normal_text(piece if '\n' not in piece else _dedent(piece), light=True)):
+                cand = re.sub(r'\s+', ' ', cand).strip()
+                if cand not in forms:
+                    forms.append(cand)
         elif '\n' in piece:
             raise AnalysisError('expected fragment does not parse: %r' % piece[:80])
         _FORMS[piece] = forms
@@ -701,9 +713,37 @@ def stmt_srcs(f, into_nested=False):
 
 
 def has(f, *alternatives):
+    """One of the statements occurs in f - in the full normal form or as the source spells it (light normal form)."""
     srcs = stmt_srcs(f)
     g = module_globals(f.module)
+    light = getattr(f.node, '_light', None)
+    if light is not None:
+        for n in ast.walk(light):
+            if isinstance(n, (ast.Assign, ast.AugAssign, ast.Return, ast.Expr, ast.Raise, ast.Delete)):
+                srcs.append(_canon(n, g))
     return any(_canon(a, g) in srcs for a in alternatives)
+
+
+def sem_with(f, extra=()):
+    """Meaning-level text (see sem_text) with the closure variables `extra` treated like further parameters (fixed names)."""
+    prm = _eff_params(f) + list(extra)
+    defs = local_defs(f)
+    g = module_globals(f.module) | ALL_GLOBALS
+
+    def st(node_or_text):
+        if isinstance(node_or_text, str):
+            tree = ast.parse(_dedent(node_or_text))
+            node = tree.body[0]
+            if isinstance(node, ast.Expr):
+                node = node.value
+            return _sem(node, list(f.params) + list(extra), {}, g)
+        return _sem(node_or_text, prm, defs, g)
+    return st
+
+
+def facts_with(f, node, extra=()):
+    st = sem_with(f, extra)
+    return set((st(t), pol) for t, pol, how in path_conditions(f.module, f, node))
 
 
 def f16_runtime_layout(ctx, L):
